@@ -47,6 +47,9 @@ type handler1 struct {
 	snRemoteAddr     net.Addr
 	mqttConn         *util.ConnWithContext
 	registeredTopics sync.Map // uint16 => string
+	// TopicIDs proposed to the client by REGISTER, also those not (yet)
+	// acknowledged: a topic gets the same TopicID in every REGISTER.
+	proposedTopics   map[string]uint16
 	predefinedTopics topics.PredefinedTopics
 	keepAlive        uint16
 	clientID         string
@@ -386,7 +389,7 @@ func (h *handler1) handleBrokerPublish(ctx context.Context, mqPublish *mqPkts.Pu
 	var snPkt snPkts.Packet
 	var nextState transactionState
 	if needsRegister {
-		topicID, err := h.newTopicID()
+		topicID, err := h.proposedTopicID(mqPublish.TopicName)
 		if err != nil {
 			return err
 		}
@@ -561,6 +564,25 @@ func (h *handler1) newTopicID() (uint16, error) {
 			return 0, ErrTopicIDsExhausted
 		}
 	}
+	return topicID, nil
+}
+
+// proposedTopicID returns the TopicID to use in a REGISTER sent to the client.
+// Several messages for one unregistered topic can be waiting for their own
+// REGACK at the same time; the client accepts only one TopicID per topic.
+// Used by the MQTT receive loop only.
+func (h *handler1) proposedTopicID(topic string) (uint16, error) {
+	if topicID, ok := h.proposedTopics[topic]; ok {
+		return topicID, nil
+	}
+	topicID, err := h.newTopicID()
+	if err != nil {
+		return 0, err
+	}
+	if h.proposedTopics == nil {
+		h.proposedTopics = make(map[string]uint16)
+	}
+	h.proposedTopics[topic] = topicID
 	return topicID, nil
 }
 
